@@ -13,9 +13,10 @@ very definitions the driver runs at `Float` against `lib/fft/*` in the correspon
 * `rfftPacked_eq`  (T01.7) the packed real transform of `RealFftPlan::solve`, every even length
 * `dft_real_conj_symm`, `fftR_real_eq_cmplx` (T01.8)
 * `fftCN_eq`, `fftRN_eq` (T01.9) pad / truncate
+* `coeffs_eq`      (T01.2) the quarter-wave coefficient table of `Pow2FftPlan` holds `ω n k` in every cell
 * `fftPrime_eq`, `fftLeaf_eq`, `fftC_eq_partial`, `fftR_eq_partial` (T01.10) plan selection glued to the kernels
   (`Props/C01Kernels.lean`, T01.1, regenerated kernels) — with the three components that are NOT proved here
-  (power-of-two butterflies T01.3/T01.2, Bluestein T01.6, well-formedness of `mkPlan`) as explicit hypotheses;
+  (power-of-two bit-reversal + butterflies T01.3, Bluestein T01.6, well-formedness of `mkPlan`) as explicit hypotheses;
   unconditional for the lengths that do not need them (`fftC_eq_small`, `fftC_eq_prime41`, `fftC_eq_60`).
 -/
 open Finset Complex
@@ -531,5 +532,121 @@ theorem fftRN_eq (lit : Lits ℝ) (n' : ℕ)
     by_cases hx : i < x.size
     · simp [hx, hi]; rfl
     · simp [hx]
+
+/-! ## T01.2 coefficient table of the power-of-two plan -/
+
+theorem cosTab_eq (n i : ℕ) : cosTab (α := ℝ) n i = Real.cos (2 * Real.pi * i / n) := by
+  unfold cosTab; simp
+
+/-- angle of table entry `a ± k` relative to the quarter points, `n = 4q` -/
+theorem ang (q : ℕ) (hq : 0 < q) (j : ℕ) : 2 * Real.pi * (j : ℝ) / ((4 * q : ℕ) : ℝ) = (Real.pi / 2) * ((j : ℝ) / q) := by
+  have : (q : ℝ) ≠ 0 := by exact_mod_cast hq.ne'
+  push_cast; field_simp; ring
+
+/-- T01.2: every cell of `_gen_coeffs_table(n)` (`4 ∣ n`) holds `exp(-2πi k/n)` — each cell gets its real part from
+    one loop iteration and its imaginary part from another, through the quarter-wave symmetries of the cosine -/
+theorem coeffs_eq (n : ℕ) (h4 : 4 ∣ n) (hn : 0 < n) (k : ℕ) (hk : k < n) :
+    Cx.toC (coeffs (α := ℝ) n k) = ω n k := by
+  obtain ⟨q, rfl⟩ := h4
+  have hq : 0 < q := by omega
+  have hqr : (q : ℝ) ≠ 0 := by exact_mod_cast hq.ne'
+  have e4 : 4 * q / 4 = q := by omega
+  have e2 : 4 * q / 2 = 2 * q := by omega
+  have e3 : 3 * (4 * q) / 4 = 3 * q := by omega
+  apply Complex.ext
+  all_goals
+    first | rw [C01K.ω_re] | rw [C01K.ω_im]
+    unfold coeffs
+    simp only [e4, e2, e3]
+    rw [ang q hq k]
+  · -- real part
+    split_ifs with h0 hq1 hq2 hq3 l1 l2 l3
+    · subst h0; simp
+    · subst hq1; simp [div_self hqr]
+    · subst hq2; simp only [Cx.toC_re, fn_ofInt]; push_cast
+      rw [show (Real.pi / 2) * ((2 * (q : ℝ)) / q) = Real.pi by field_simp]; simp
+    · subst hq3; simp only [Cx.toC_re, fn_ofInt]; push_cast
+      rw [show (Real.pi / 2) * ((3 * (q : ℝ)) / q) = Real.pi / 2 + Real.pi by field_simp; ring]
+      rw [Real.cos_add_pi, Real.cos_pi_div_two]; simp
+    · simp only [Cx.toC_re, cosTab_eq]; rw [ang q hq k]
+    · simp only [Cx.toC_re, cosTab_eq]; rw [ang q hq]
+      rw [Nat.cast_sub (by omega)]; push_cast
+      rw [show (Real.pi / 2) * ((2 * (q : ℝ) - k) / q) = Real.pi - (Real.pi / 2) * ((k : ℝ) / q) by field_simp]
+      rw [Real.cos_pi_sub]; ring
+    · simp only [Cx.toC_re, cosTab_eq]; rw [ang q hq]
+      rw [Nat.cast_sub (by omega)]; push_cast
+      rw [show (Real.pi / 2) * (((k : ℝ) - 2 * q) / q) = (Real.pi / 2) * ((k : ℝ) / q) - Real.pi by field_simp]
+      rw [Real.cos_sub_pi]; ring
+    · simp only [Cx.toC_re, cosTab_eq]; rw [ang q hq]
+      rw [Nat.cast_sub (by omega)]; push_cast
+      rw [show (Real.pi / 2) * ((4 * (q : ℝ) - k) / q) = 2 * Real.pi - (Real.pi / 2) * ((k : ℝ) / q) by field_simp; ring]
+      rw [Real.cos_two_pi_sub]
+  · -- imaginary part
+    split_ifs with h0 hq1 hq2 hq3 l1 l2 l3
+    · subst h0; simp
+    · subst hq1; simp [div_self hqr]
+    · subst hq2; simp only [Cx.toC_im, fn_ofInt]; push_cast
+      rw [show (Real.pi / 2) * ((2 * (q : ℝ)) / q) = Real.pi by field_simp]; simp
+    · subst hq3; simp only [Cx.toC_im, fn_ofInt]; push_cast
+      rw [show (Real.pi / 2) * ((3 * (q : ℝ)) / q) = Real.pi / 2 + Real.pi by field_simp; ring]
+      rw [Real.sin_add_pi, Real.sin_pi_div_two]; simp
+    · simp only [Cx.toC_im, cosTab_eq]; rw [ang q hq]
+      rw [Nat.cast_sub (by omega)]
+      rw [show (Real.pi / 2) * (((q : ℝ) - k) / q) = Real.pi / 2 - (Real.pi / 2) * ((k : ℝ) / q) by field_simp]
+      rw [Real.cos_pi_div_two_sub]
+    · simp only [Cx.toC_im, cosTab_eq]; rw [ang q hq]
+      rw [Nat.cast_sub (by omega)]
+      rw [show (Real.pi / 2) * (((k : ℝ) - q) / q) = (Real.pi / 2) * ((k : ℝ) / q) - Real.pi / 2 by field_simp]
+      rw [Real.cos_sub_pi_div_two]
+    · simp only [Cx.toC_im, cosTab_eq]; rw [ang q hq]
+      rw [Nat.cast_sub (by omega)]; push_cast
+      rw [show (Real.pi / 2) * ((3 * (q : ℝ) - k) / q) = Real.pi / 2 - ((Real.pi / 2) * ((k : ℝ) / q) - Real.pi) by field_simp; ring]
+      rw [Real.cos_pi_div_two_sub, Real.sin_sub_pi]
+    · simp only [Cx.toC_im, cosTab_eq]; rw [ang q hq]
+      rw [Nat.cast_sub (by omega)]; push_cast
+      rw [show (Real.pi / 2) * (((k : ℝ) - 3 * q) / q) = ((Real.pi / 2) * ((k : ℝ) / q) - Real.pi) - Real.pi / 2 by field_simp; ring]
+      rw [Real.cos_sub_pi_div_two, Real.sin_sub_pi]
+
+/-! ## unconditional instances (non-vacuity of every hypothesis used above) -/
+
+set_option maxRecDepth 8000 in
+theorem plan60 : mkPlan 32 60 = .node 3 20 (.leaf 3) (.node 4 5 (.leaf 4) (.leaf 5)) := by decide
+
+/-- the hypotheses `LitsOK` are satisfiable: the exact values the literals approximate -/
+theorem litsOK_exact : LitsOK ⟨√2 / 2, √2 / 2, √3 / 2⟩ := by
+  have h2 : (√2 : ℝ) ^ 2 = 2 := Real.sq_sqrt (by norm_num)
+  have h3 : (√3 : ℝ) ^ 2 = 3 := Real.sq_sqrt (by norm_num)
+  constructor <;> first | positivity | (simp only []; nlinarith)
+
+/-- unconditional instance with a genuine two-level tree: n = 60 = 3 · (4 · 5), leaves `_dft_n3`, `_fft_n4`, `_dft_slow(5)` -/
+theorem fftC_eq_60 (lit : Lits ℝ) (hl : LitsOK lit) : IsDft 60 (fftC lit 60) := by
+  apply fftC_eq_partial lit hl 60 (by norm_num)
+  · intro _ h _; exact absurd h (by decide)
+  · intro _ _ h; exact absurd h (by decide)
+  · intro _ _ _
+    rw [plan60]
+    refine ⟨by simp [Plan.WF, Plan.size], by simp [Plan.size], ?_⟩
+    intro m hm
+    simp only [Plan.leaves, List.cons_append, List.nil_append, List.mem_cons, List.not_mem_nil, or_false] at hm
+    rcases hm with h | h | h <;> subst h
+    · exact fftLeaf_eq lit hl 3 (by norm_num) (by intro _ _ h; exact absurd h (by decide)) (by intro _ h; exact absurd h (by decide))
+    · exact fftLeaf_eq lit hl 4 (by norm_num) (by intro h; exact absurd h (by decide)) (by intro h; exact absurd h (by decide))
+    · exact fftLeaf_eq lit hl 5 (by norm_num) (by intro _ _ h; exact absurd h (by decide)) (by intro _ h; exact absurd h (by decide))
+
+/-- the plan of `n = 60` is well formed (instance of the hypotheses of `facfft_eq`) -/
+example : Plan.WF (mkPlan 32 60) ∧ (mkPlan 32 60).size = 60 := by rw [plan60]; simp [Plan.WF, Plan.size]
+
+/-- unconditional: real input of length 120 — packed transform on top of the complex plan of size 60 -/
+theorem fftR_eq_120 (lit : Lits ℝ) (hl : LitsOK lit) (x : Array ℝ) (k : ℕ) (hk : k < 120) :
+    Cx.toC (rd (fftR lit 120 x) k) = dft 120 (seqR x) k := by
+  apply fftR_eq_partial lit hl 120 (by norm_num) _ _ _ x k hk
+  · intro _ h; exact absurd h (by decide)
+  · intro _ _ _; exact fftC_eq_60 lit hl
+  · intro _ _ h; exact absurd rfl h
+
+/-- unconditional: `fft(x, 60)` of an input of ANY length is the DFT of its padded / truncated version -/
+theorem fftCN_eq_60 (lit : Lits ℝ) (hl : LitsOK lit) (x : Vec ℝ) (k : ℕ) (hk : k < 60) :
+    Cx.toC (rd (fftCN lit 60 x) k) = dft 60 (padSeq 60 x) k :=
+  fftCN_eq lit 60 (fftC_eq_60 lit hl) x k hk
 
 end Dsp.C01
